@@ -221,12 +221,57 @@ class LengthDomain:
         if key is None:
             return 0
         l, path = key
+        if tuple(path) == ("@Some", "0"):
+            return self._chunk_len(l)       # payload of ChunksExact::next()
         if path:
             return 0
         ty = strip_ref(self.fn.local_ty(l))
         m = ARRAY_TY.match(ty)
         if m:
             return int(m.group(2))
+        n = self._chunk_len(l)
+        if n:
+            return n
+        return 0
+
+    def _chunk_len(self, l, depth=0):
+        """Elements yielded by `x.chunks_exact(n)` / `array_chunks` have exactly n elements."""
+        if depth > 4:
+            return 0
+        for d in self.defs.get(l, []):
+            if d[0] == "s":
+                rv = d[3]["rv"]
+                if rv["k"] in ("use", "ref"):
+                    p = op_place(rv["op"]) if rv["k"] == "use" else rv["pl"]
+                    if p is not None:
+                        n = self._chunk_len(p["l"], depth + 1)
+                        if n:
+                            return n
+            else:
+                t = d[2]
+                c = callee_of(t) or ""
+                if "ChunksExact" in c and c.endswith("::next"):
+                    # the iterator local -> its chunks_exact(.., n) constructor
+                    it = op_local(t["args"][0]) if t["args"] else None
+                    seen = set()
+                    todo = [it]
+                    while todo:
+                        x = todo.pop()
+                        if x is None or x in seen:
+                            continue
+                        seen.add(x)
+                        for dd in self.defs.get(x, []):
+                            if dd[0] == "c":
+                                tt = dd[2]
+                                cc = callee_of(tt) or ""
+                                if cc.endswith("::chunks_exact") and len(tt["args"]) > 1 and op_int(tt["args"][1]):
+                                    return op_int(tt["args"][1])
+                                for a in tt["args"][:1]:
+                                    todo.append(op_local(a))
+                            else:
+                                rv2 = dd[3]["rv"]
+                                for o in rv_operands(rv2):
+                                    todo.append(op_local(o))
         return 0
 
     # -- symbolic lengths and tests -------------------------------------------------
@@ -289,6 +334,16 @@ class LengthDomain:
                         return ((k[0], k[1] + tuple(sm[2])), "Ge", sm[3])
             return None
         rv = d[3]["rv"]
+        if rv["k"] == "bin" and rv["op"] in ("Eq", "Ne") and 0 in (op_int(rv["a"]), op_int(rv["b"])):
+            # parity / divisibility test: `len(K) % c == 0` false  =>  len(K) != 0   (sound for lower bounds only)
+            other = rv["b"] if op_int(rv["a"]) == 0 else rv["a"]
+            ol = op_local(other)
+            for dd in (self.defs.get(ol, []) if ol is not None else []):
+                if dd[0] == "s" and dd[3]["rv"]["k"] == "bin" and dd[3]["rv"]["op"] == "Rem":
+                    r = dd[3]["rv"]
+                    k = self.len_source(op_local(r["a"])) if op_local(r["a"]) is not None else None
+                    if k is not None and (op_int(r["b"]) or 0) >= 2:
+                        return (k, rv["op"], 0)
         if rv["k"] == "bin" and rv["op"] in ("Lt", "Le", "Gt", "Ge", "Eq", "Ne"):
             a, b = rv["a"], rv["b"]
             ka = self.len_source(op_local(a)) if op_local(a) is not None else None
@@ -426,6 +481,11 @@ class LengthDomain:
                     sk = self.key_of_operand(t["args"][0])
                     if sk is not None:
                         n = max(st.get(sk, 0), self.static_len(sk))
+                    if n == 0 and name in ("into_vec", "box_assume_init_into_vec_unsafe") and tys and tys[0].startswith("std::boxed::Box<"):
+                        # vec![a, b, c]: the boxed array's length is in its type
+                        mm = re.search(r"\[[^\[\];]+; (\d+)\]", tys[0])
+                        if mm:
+                            n = int(mm.group(1))
                 elif self.summ is not None and (t.get("target_local") or t.get("callee_local")):
                     sm = self.summ.get(c)
                     if sm and sm[0] == "copy" and sm[1] < len(t["args"]):
